@@ -72,7 +72,7 @@ func checkC19(c c19Case) string {
 		// child process: compare with the parent's hashes
 		for f, h := range c.Hashes {
 			if got := hashOf(ref[f]); got != h {
-				return fmt.Sprintf("%s output differs between two processes (hash %s here, %s in the other process)\n--- here ---\n%s", f, got, h, clip(string(ref[f]), 900))
+				return fmt.Sprintf("%s output of the same list differs between two writes made after different earlier writes (another process, or another position in a sequence of lists): hash %s here, %s there\n--- here ---\n%s", f, got, h, clip(string(ref[f]), 900))
 			}
 		}
 		return ""
@@ -123,9 +123,9 @@ func checkC19(c c19Case) string {
 }
 
 // childHashes runs this test binary again (fresh map hash seeds) on a batch of cases.
-func c19RunChild(path string) error {
+func c19RunChild(path string, order string) error {
 	cmd := exec.Command(os.Args[0], "-test.run", "^TestC19Child$", "-test.count", "1")
-	cmd.Env = append(os.Environ(), "VERIF_C19_BATCH="+path, "VERIF_FRAG=", "VERIF_REPLAY_OUT="+os.Getenv("VERIF_REPLAY_OUT"))
+	cmd.Env = append(os.Environ(), "VERIF_C19_BATCH="+path, "VERIF_C19_ORDER="+order, "VERIF_FRAG=", "VERIF_REPLAY_OUT="+os.Getenv("VERIF_REPLAY_OUT"))
 	out, err := cmd.CombinedOutput()
 	if err != nil {
 		return fmt.Errorf("%v\n%s", err, clip(string(out), 3000))
@@ -146,6 +146,12 @@ func TestC19Child(t *testing.T) {
 	var cases []c19Case
 	if err := json.Unmarshal(b, &cases); err != nil {
 		t.Fatal(err)
+	}
+	// what a process wrote earlier must not matter: half of the children go through the batch backwards
+	if os.Getenv("VERIF_C19_ORDER") == "rev" {
+		for i, j := 0, len(cases)-1; i < j; i, j = i+1, j-1 {
+			cases[i], cases[j] = cases[j], cases[i]
+		}
 	}
 	for _, c := range cases {
 		verdict(t, "C19", "c19", c, checkC19)
@@ -203,6 +209,13 @@ func TestC19(t *testing.T) {
 			batch = append(batch, cc)
 		}
 	})
+	// same process, other history: the lists of the batch written again in the opposite order
+	sub(t, "history", func(t *testing.T) {
+		for i := len(batch) - 1; i >= 0; i-- {
+			ev.Label("rewritten-in-reverse-order")
+			verdict(t, "C19", "c19", batch[i], checkC19)
+		}
+	})
 	// other processes: new map hash seeds
 	sub(t, "processes", func(t *testing.T) {
 		dir := t.TempDir()
@@ -214,7 +227,7 @@ func TestC19(t *testing.T) {
 		n := tier(4, 8)
 		for i := 0; i < n; i++ {
 			ev.Label("child-process")
-			if err := c19RunChild(path); err != nil {
+			if err := c19RunChild(path, []string{"fwd", "rev"}[i%2]); err != nil {
 				t.Fatalf("C19: a fresh process does not reproduce the outputs: %v", err)
 			}
 		}
